@@ -315,7 +315,9 @@ def _check_defined(res, spec, prop, p):
                 pass
         src = replay_tpl.defined_replay(prop, spec, model)
         path = common.write_replay(prop, _safe(spec["name"] + "_defined"), src)
-        ok, out = common.run_replay(path)
+        # at most one such replay per case (the function returns below): it does not draw on the replay budget, which is kept for
+        # gradient counterexamples (on the unchanged tree about a dozen candidate points are replayed and none reproduces)
+        ok, out = common.run_replay(path, count=False)
         if ok is True:
             res["status"] = common.VIOLATION
             res["violations"].append({"signature": "%s:undefined" % spec["name"], "replay": path,
